@@ -711,8 +711,8 @@ theorem benignStep_setH (s : St) (c : Nat) (h' : H) (h1 : swH (s.conns c).h = fa
     · exact benignConn_refl _
   · intro e he he'; simp at he'; omega
 
-theorem stepBack_core2 {cfg : Cfg} {s s' : St} {c0 : Nat} (hI : Inv1 s) (hC : Core2 s)
-    (hact' : s'.active = true) (hNK' : NoKick s') (h : stepBack cfg s c0 = some s') : Core2 s' := by
+theorem stepBack_core2 {cfg : Cfg} {s s' : St} {c0 : Nat} (hjs : cfg.joinBySnapshot = false) (hI : Inv1 s)
+    (hC : Core2 s) (hact' : s'.active = true) (hNK' : NoKick s') (h : stepBack cfg s c0 = some s') : Core2 s' := by
   have hJP := hI.jp
   have hA := hI.a
   unfold stepBack at h
@@ -722,7 +722,7 @@ theorem stepBack_core2 {cfg : Cfg} {s s' : St} {c0 : Nat} (hI : Inv1 s) (hC : Co
     have hd : c0 < s.nconns := by omega
     have hJ0 := hJP c0 hd
     have hjt0 := hC.jt c0 hd
-    simp only [] at h
+    simp only [hjs, Bool.false_and, Bool.false_eq_true, if_false] at h
     cases hh : (s.conns c0).h <;> simp only [hh] at h
     all_goals (repeat' (split at h))
     all_goals (try (simp at h; done))
@@ -817,6 +817,7 @@ theorem step_active {cfg : Cfg} {s s' : St} {a : Act} (h : step cfg s a = some s
         | exact hact'
         | (simp only [setH_active, closeConn_active, closeOpt_active, spawnTask_active] at hact'; exact hact')
   | spawn m d ev => simp [step] at h; subst h; exact hact'
+  | create d tag => simp [step] at h; subst h; exact hact'
   | release c0 => simp only [step] at h; split at h <;> simp at h; subst h; exact hact'
   | kick c0 => simp only [step] at h; split at h <;> simp at h; subst h; simpa using hact'
   | drop c0 => simp only [step] at h; split at h <;> simp at h; subst h; simpa using hact'
@@ -824,13 +825,16 @@ theorem step_active {cfg : Cfg} {s s' : St} {a : Act} (h : step cfg s a = some s
 
 /-- every step of the repaired code that stays out of the kick path and keeps the player connected preserves the
     switch-over invariants -/
-theorem core2_step {cfg : Cfg} {s s' : St} {a : Act} (hI : Inv1 s) (hC : Core2 s)
+theorem core2_step {cfg : Cfg} {s s' : St} {a : Act} (hjs : cfg.joinBySnapshot = false) (hI : Inv1 s) (hC : Core2 s)
     (hact' : s'.active = true) (hNK : NoKick s) (hNK' : NoKick s') (h : step cfg s a = some s') : Core2 s' := by
   have hact := step_active h hact'
   cases a with
   | task i => exact core2_benign hC (stepTask_benign hI.jp hI.tc hI.w hC hact hact' hNK hNK' h)
-  | back c0 => exact stepBack_core2 hI hC hact' hNK' h
+  | back c0 => exact stepBack_core2 hjs hI hC hact' hNK' h
   | spawn m d ev =>
+    simp [step] at h; subst h
+    exact core2_benign hC (benignStep_of_eq (benignStep_refl s) rfl rfl rfl rfl)
+  | create d tag =>
     simp [step] at h; subst h
     exact core2_benign hC (benignStep_of_eq (benignStep_refl s) rfl rfl rfl rfl)
   | release c0 =>
